@@ -13,12 +13,12 @@ func verifHarness_C14_routerRepeat() {
 	warmed := verifChoice("history", 2) == 1
 	if warmed {
 		r = New(EnableCaching, HandleMethodNotAllowed)
-		r.POST("/only/post", verifNop)
+		r.POST("/only/post/and/a/rather/long/one", verifNop)
 	}
 	r.GET(pat, verifNop)
 	if warmed {
 		r.QuickMatch("GET", "/no/such/route/at/all")
-		r.QuickMatch("GET", "/only/post")
+		r.QuickMatch("GET", "/only/post/and/a/rather/long/one")
 		r.QuickMatch("HEAD", "/no/such/route/at/all")
 	}
 	p := verifNormalPath("p", verifParam("L"))
